@@ -208,7 +208,14 @@ class ParseContext:
             "Unrecognized __gin__ feature '{feature}'.", statement.location)
     else:
       fromlist = [''] if statement.is_from or statement.alias else None
-      module = __import__(statement.module, fromlist=fromlist)
+      try:
+        module = __import__(statement.module, fromlist=fromlist)
+      except SyntaxError as e:
+        # A syntax error in the imported module, not in the config: it names a
+        # location in that module's source and is to be augmented with the
+        # location of the import statement (see `utils.try_with_location`).
+        e.raised_by_import = True
+        raise
       if self._dynamic_registration:
         name = statement.bound_name()
         if name == 'gin':
